@@ -821,6 +821,40 @@ def run_server(ctx, rng):
                     ctx.count('references_compared')
                     if val != keywrap_ref(wk.value, tk.value):
                         ctx.violation('server|wrap', 'wrapped key in the Get response differs from RFC 3394', None)
+                # one batch: the key wrapped twice, then used; every wrapped copy is RFC 3394 of the stored key and the
+                # cipher text is the reference's under the stored key, in the batch and in a later request
+                kv_ = rb(rng, rng.choice((16, 24, 32)))
+                uk = store.register(srv, 'sym', 'alice', rng, value=kv_, masks=[E.CryptographicUsageMask.ENCRYPT], state='active')
+                blk = rb(rng, 16)
+                ecb = cparams(block_cipher_mode=BM.ECB, cryptographic_algorithm=CA.AES)
+                if uk is not None:
+                    try:
+                        gb = srv.send([op_get(uk.uid, wrap=wrap_spec(wk.uid)), op_get(uk.uid, wrap=wrap_spec(wk.uid)),
+                                       op_encrypt(uk.uid, blk, ecb)], a, (1, 2), error_option=E.BatchErrorContinuationOption.CONTINUE)
+                        later = srv.send([op_encrypt(uk.uid, blk, ecb)], a, (1, 2))
+                    except Exception:
+                        gb = later = None
+                    if gb is not None and gb.error is None and len(gb.items) == 3:
+                        ctx.ev()
+                        ctx.count('wrapped_gets_batched_with_a_use')
+                        for i_ in (0, 1):
+                            if gb.ok(i_):
+                                val = None
+                                for _, it in T.walk(gb.payload(i_)):
+                                    if it[0] == 0x420043:
+                                        val = it[2]
+                                ctx.count('references_compared')
+                                if val != keywrap_ref(wk.value, kv_):
+                                    ctx.violation('server|wrap|batch-item-%d' % i_, 'wrapped key in item %d of a batch differs from RFC 3394 '
+                                                  'of the stored key' % i_, {'kek': wk.value.hex(), 'key': kv_.hex()})
+                        want_ = ecb_block(CA.AES, kv_, blk)
+                        for label_, resp_, idx_ in (('batch', gb, 2), ('later', later, 0)):
+                            if resp_ is not None and resp_.error is None and resp_.ok(idx_):
+                                ctx.count('references_compared')
+                                if T.val(resp_.payload(idx_), 0x4200C2) != want_:
+                                    ctx.violation('server|encrypt-after-wrapped-get|%s' % label_,
+                                                  'cipher text made after wrapped Gets of the key (%s) is not the reference\'s under the '
+                                                  'stored key' % label_, {'key': kv_.hex(), 'block': blk.hex()})
         finally:
             srv.close()
     ctx.sample({'function': 'server round trips'})
